@@ -4,6 +4,7 @@ static void hook(int phase, int dtype, int jcol, double u, int usepr, int pivrow
                  const void *drop_sum, double fill_tol, int ncand, const int_t *rows, const void *vals,
                  const int *marker, const int *swap, int n, int info) {
     iluevlog_t *lg = cur; if (!lg) return;
+    if (phase == 2) { lg->dropnzp += ncand; lg->ncalls2++; return; }   /* ilu_?drop_row replaced ncand pivots (MILU compensation cancelled them) */
     int clamped = 0;
     if (ncand < 0) { ncand = 0; clamped = 1; }   /* after a zero pivot a supernode may hold fewer rows than columns (open finding) */
     if (phase == 0) {
@@ -54,7 +55,7 @@ static void hook(int phase, int dtype, int jcol, double u, int usepr, int pivrow
 }
 void iev_start(iluevlog_t *lg, int elsize) {
     if (lg->elsize != elsize) { free(lg->ev); free(lg->rows0); free(lg->rows1); free(lg->elig0); free(lg->vals0); free(lg->vals1); free(lg->ds); memset(lg, 0, sizeof *lg); }
-    lg->n = 0; lg->npool = 0; lg->elsize = elsize; lg->overflow = 0; cur = lg; slu_verif_ilu_pivot_hook = hook;
+    lg->n = 0; lg->npool = 0; lg->elsize = elsize; lg->overflow = 0; lg->dropnzp = 0; lg->ncalls2 = 0; cur = lg; slu_verif_ilu_pivot_hook = hook;
 }
 void iev_stop(void) { slu_verif_ilu_pivot_hook = 0; cur = NULL; }
 void iev_free(iluevlog_t *lg) { free(lg->ev); free(lg->rows0); free(lg->rows1); free(lg->elig0); free(lg->vals0); free(lg->vals1); free(lg->ds); memset(lg, 0, sizeof *lg); }
@@ -65,6 +66,7 @@ void iev_emit(FILE *f, const iluevlog_t *lg, const char *pfx, int is_double, int
         h[0] = e->jcol; h[1] = e->usepr_in; h[2] = e->oldrow; h[3] = e->diagind; h[4] = e->milu; h[5] = e->ncand; h[6] = e->n; h[7] = e->freerow;
         h[8] = e->pivrow; h[9] = e->usepr_out; h[10] = e->info; h[11] = e->have_exit; h[12] = e->clamped; h[13] = e->badrow; h[14] = e->dtype; h[15] = 0;
         us[k] = e->u; ft[k] = e->fill_tol; }
+    { int dz[2] = { lg->dropnzp, lg->ncalls2 }; snprintf(nm, sizeof nm, "%s.dropnzp", pfx); out_ints(f, nm, 2, dz); }
     snprintf(nm, sizeof nm, "%s.hdr", pfx); out_ints(f, nm, (long)IEV_NHDR * lg->n, hdr);
     snprintf(nm, sizeof nm, "%s.u", pfx); out_f64(f, nm, lg->n, us);
     snprintf(nm, sizeof nm, "%s.filltol", pfx); out_f64(f, nm, lg->n, ft);
